@@ -974,3 +974,26 @@ def pairwise_reductions(rep, rule, idx, module_rel):
                         "reduction tree that element (here: the response of the last subordinate of a level) never reaches the result",
                         line=c_.lineno)
     return n
+
+
+def partition_concatenations(rep, rule, idx, spec, what):
+    """`Cat(f(x) for x in A + B)` (or a loop over `A + B`) where A and B are the two halves of a *filtered* split of one
+    sequence S (`[x for x in S if c]`, `[x for x in S if not c]`): the result is in partition order, not in the order of S.
+    A vector built that way has bit k belong to the k-th element of the regrouped list, not to element k of S, whenever the two
+    kinds are interleaved in S."""
+    import ast as _ast
+    fi = idx.find_func(spec)
+    filt = {}
+    for n in _ast.walk(fi.node):
+        if isinstance(n, _ast.Assign) and len(n.targets) == 1 and isinstance(n.targets[0], _ast.Name) and isinstance(n.value, _ast.ListComp) and \
+                len(n.value.generators) == 1 and n.value.generators[0].ifs:
+            filt[n.targets[0].id] = _ast.unparse(n.value.generators[0].iter)
+    found = 0
+    for n in _ast.walk(fi.node):
+        if isinstance(n, _ast.BinOp) and isinstance(n.op, _ast.Add) and isinstance(n.left, _ast.Name) and isinstance(n.right, _ast.Name) and \
+                n.left.id in filt and n.right.id in filt and filt[n.left.id] == filt[n.right.id] and n.left.id != n.right.id:
+            found += 1
+            rep.bad(rule, fi.site, f"{n.left.id} + {n.right.id}", f"the two filtered halves of `{filt[n.left.id]}` are concatenated: the result is in "
+                    f"partition order, so position k of a vector built over it is not element k of `{filt[n.left.id]}` when the two kinds are "
+                    f"interleaved ({what})", line=n.lineno)
+    return found
